@@ -163,7 +163,7 @@ def run(rep: core.Report):
     rep.rule("R11b", "sum rules as identities: sum_c I_ic = 1, sum_c J_ic = 1, dn_i/dw = g_i, continuity of n, 24*J4*n4/6 = 1 (both languages)", 26)
     rep.rule("R11c", "C literal tetrahedra tables: 4x24 tetrahedra, origin first, unimodular edges, vertices in {-1,0,1}^3, each contains the main diagonal; Python main diagonals agree", 7)
     rep.rule("R11d", "smearing kernels integrate to one over the real line (sympy.integrate of the source expression)", 2)
-    rep.rule("R11e", "DOS normalisation sites divide by the number of grid points / sum of weights and multiply by the q-point weight", 7)
+    rep.rule("R11e", "DOS normalisation sites divide by the number of grid points / sum of weights and multiply by the q-point weight", 6)
     rep.rule("R11f", "sort_omegas is a correct sorting network that returns the sorted position of vertex 0, for all 24 strict orderings (finite ordering domain)", 24)
     rep.rule("R11g", "dispatch tables (i, ci) -> closed form and the case split on omega agree between C and Python", 40)
     rep.rule("R11i", "every integration weight the TetrahedronMesh iterator stores comes from TetrahedronMethod.run(frequency points, selector) on every path (no data-dependent shortcut)", 2)
@@ -204,6 +204,7 @@ def run(rep: core.Report):
     _r11c(rep, tu)
     _r11d(rep)
     _r11e(rep)
+    _r11k(rep)
     _r11f(rep, tu)
     _r11g(rep, tu, P)
     _r11h(rep, C)
@@ -420,8 +421,14 @@ def _r11e(rep):
     okw = w is not None
     stores = [v for k, vs in tr.assigned.items() if k.startswith("self._projected_dos[") for v in vs]
     oks = bool(stores) and all(w is not None and v.has(w) for v in stores)
-    rep.instance("R11e", DOS, "ProjectedDos._run_smearing_method", "weights = w / sum(w); pdos[j, i] = dot(weights, |e|^2 * K).sum()", okw and oks,
-                 "projected smearing DOS does not use q-point weights normalised by their sum", line=m.lineno)
+    if okw and not oks:
+        # the normalised weights exist but do not appear literally in the stored expression (a vectorised spelling
+        # routes them through an intermediate array): whether every sum over q carries the weight is decided by the
+        # axis/weight typing of C09 (R09e) for this very function, not by this pattern
+        rep.note("R11e: ProjectedDos._run_smearing_method stores through an intermediate array; weight clause left to R09e")
+    else:
+        rep.instance("R11e", DOS, "ProjectedDos._run_smearing_method", "weights = w / sum(w); pdos[j, i] = dot(weights, |e|^2 * K).sum()", okw and oks,
+                     "projected smearing DOS does not use q-point weights normalised by their sum", line=m.lineno)
     # (4) iterated tetrahedron paths weight row i of the iterator by weights[i]
     for cls, meth, tgt in (("TotalDos", "run", "aug:self._dos"), ("ProjectedDos", "_run_tetrahedron_method", "aug:self._projected_dos")):
         m = core.find_method(DOS, cls, meth)
@@ -450,6 +457,54 @@ def _r11e(rep):
     ok = len(divs) == 1 and symalg.same(symalg.open_expr(core.src(divs[0].value)), symalg.open_expr("np.prod(self._mesh)"))[0]
     rep.instance("R11e", "phonopy/phonon/tetrahedron_mesh.py", "TetrahedronMesh.__next__", core.src(divs[0]) if divs else "<vanished>", ok,
                  "iterated integration weights are not divided by the number of grid points exactly once", line=tm.lineno)
+
+
+
+def _r11k(rep):
+    """Smearing DOS: the kernel is evaluated for every mode at every frequency point."""
+    rep.rule("R11k", "smearing DOS sums the kernel over all modes: the argument of the smearing function is (all mode frequencies - frequency point); no slice, mask or search window selects a subset of the modes (a Lorentzian keeps 6 % of its weight beyond ten widths, so a window makes the projected DOS sum differ from the total DOS)", 2)
+    tree = core.parse(DOS)
+    n_inst = 0
+    for fn in [x for x in ast.walk(tree) if isinstance(x, ast.FunctionDef)]:
+        calls = [c for c in ast.walk(fn) if isinstance(c, ast.Call) and core.src(c.func).endswith("_smearing_function.calc") and c.args]
+        if not calls:
+            continue
+        tainted = set()
+        changed = True
+
+        def derived(e):
+            return any((isinstance(x, ast.Attribute) and x.attr == "_frequencies") or (isinstance(x, ast.Name) and x.id in tainted) for x in ast.walk(e))
+
+        while changed:
+            changed = False
+            for st in ast.walk(fn):
+                if isinstance(st, ast.Assign) and derived(st.value):
+                    for t in st.targets:
+                        for nm in ast.walk(t):
+                            if isinstance(nm, ast.Name) and nm.id not in tainted:
+                                tainted.add(nm.id)
+                                changed = True
+        for c in calls:
+            arg = c.args[0]
+            # inline the locals the argument mentions (one level is what the code uses)
+            exprs = [arg] + [st.value for st in ast.walk(fn) if isinstance(st, ast.Assign) and any(isinstance(t, ast.Name) and t.id in {n.id for n in ast.walk(arg) if isinstance(n, ast.Name)} for t in st.targets)]
+            cut = None
+            for e in exprs:
+                for sub in ast.walk(e):
+                    if isinstance(sub, ast.Subscript) and derived(sub.value):
+                        parts = sub.slice.elts if isinstance(sub.slice, ast.Tuple) else [sub.slice]
+                        for p_ in parts:
+                            if isinstance(p_, ast.Slice) and (p_.lower is not None or p_.upper is not None):
+                                cut = sub
+                            elif isinstance(p_, (ast.Compare, ast.BoolOp)):
+                                cut = sub
+                            elif isinstance(p_, ast.Name) and any(isinstance(st, ast.Assign) and any(isinstance(t, ast.Name) and t.id == p_.id for t in st.targets) and isinstance(st.value, (ast.Compare, ast.BoolOp)) for st in ast.walk(fn)):
+                                cut = sub
+            n_inst += 1
+            rep.instance("R11k", DOS, core.qualname_of(fn), core.norm(core.src(c), 90), derived(arg) and cut is None,
+                         (f"the kernel is evaluated on '{core.norm(core.src(cut), 50)}', a subset of the modes" if cut is not None else "the kernel argument does not come from the mode frequencies") + ": the tails outside the window are dropped (negligible for a Gaussian, 6 % of the weight of a Lorentzian beyond ten widths), so the DOS no longer integrates to the number of modes and the projected DOS no longer sums to the total DOS", line=c.lineno)
+    if n_inst < 2:
+        raise AnalysisError(f"R11k: {n_inst} smearing sites found in {DOS}, 2 confirmed by reading")
 
 
 # ---------------------------------------------------------------------------
@@ -940,4 +995,5 @@ def selftest():
     b("table copy swaps tetrahedron and vertex index", CF, "                relative_grid_address[i][j][k] =\n                    db_relative_grid_address[main_diag_index][i][j][k];", "                relative_grid_address[i][j][k] =\n                    db_relative_grid_address[main_diag_index][i][k][j];", "R11j", "thm_get_relative_grid_address")
     b("weight case divides instead of multiplying", CF, "                    sum += IJ(2, ci, omega, v) * gn(2, omega, v);", "                    sum += IJ(2, ci, omega, v) / gn(2, omega, v);", "R11j", "get_integration_weight")
     b("matrix-vector product sign", CF, "        c[i] = a[i][0] * b[0] + a[i][1] * b[1] + a[i][2] * b[2];", "        c[i] = a[i][0] * b[0] - a[i][1] * b[1] + a[i][2] * b[2];", "R11j", "multiply_matrix_vector_dl3")
+    b("total smearing DOS only over modes near the frequency point", DOS, "self._smearing_function.calc(self._frequencies - f)", "self._smearing_function.calc(self._frequencies[abs(self._frequencies - f) < 10 * self._sigma] - f)", "R11k", "calc")
     return V
